@@ -5,6 +5,7 @@ import (
 	"fmt"
 	"go/ast"
 	"go/token"
+	"math/big"
 	"math/rand"
 	"sort"
 	"strconv"
@@ -120,6 +121,15 @@ func valuesOfDedup(names, vals []string) []string {
 		}
 	}
 	return out
+}
+
+// numKey is the exact value of a numeric literal (decimal, with or without exponent) as a reduced fraction.
+func numKey(lit string) string {
+	r, ok := new(big.Rat).SetString(lit)
+	if !ok {
+		return lit
+	}
+	return r.String()
 }
 
 // nameChainInvalid: some name goes through SchemaNameToTypeName, SanitizeGoIdentity and SchemaNameToTypeName again to
@@ -251,23 +261,41 @@ func runC11(r *Report, rng *rand.Rand, thorough bool) {
 			vals = fixed[d%len(fixed)]
 		}
 		pos := positions[d%len(positions)]
-		base := []string{"string", "string", "string", "integer"}[rng.Intn(4)]
+		base := []string{"string", "string", "string", "integer", "number"}[rng.Intn(5)]
 		var enumVals []any
 		var specVals []string
 		if base == "integer" {
+			// small values, and values float32 cannot hold (2^24 + 1 and beyond; all below 2^53: the loader reads numbers as float64)
+			pool := []int{-2, -1, 0, 1, 2, 3, 4, 16777216, 16777217, 123456789, 20240229, 4294967297}
 			seen := map[int]bool{}
 			for i := 0; i < 1+rng.Intn(4); i++ {
-				x := rng.Intn(7) - 2
+				x := pool[rng.Intn(len(pool))]
 				if !seen[x] {
 					seen[x] = true
 					enumVals = append(enumVals, x)
 					specVals = append(specVals, fmt.Sprint(x))
 				}
 			}
+		} else if base == "number" {
+			pool := []float64{0.5, 1.5, -2.25, 1.23456789, 0.1, 16777217, 1e21, 3}
+			seen := map[float64]bool{}
+			for i := 0; i < 1+rng.Intn(4); i++ {
+				x := pool[rng.Intn(len(pool))]
+				if !seen[x] {
+					seen[x] = true
+					enumVals = append(enumVals, x)
+					specVals = append(specVals, strconv.FormatFloat(x, 'g', -1, 64))
+				}
+			}
 		} else {
 			for _, v := range vals {
 				enumVals = append(enumVals, v)
 				specVals = append(specVals, v)
+			}
+		}
+		if base != "string" {
+			for i := range specVals {
+				specVals[i] = numKey(specVals[i])
 			}
 		}
 		enumSchema := map[string]any{"type": base, "enum": enumVals}
@@ -418,6 +446,9 @@ func runC11(r *Report, rng *rand.Rand, thorough bool) {
 				continue
 			}
 			val := c.lit
+			if base != "string" {
+				val = numKey(c.lit) // 1.6777217e+07 and 16777217 are one number
+			}
 			if base == "string" {
 				u, err := strconv.Unquote(c.lit)
 				if err != nil {
@@ -521,5 +552,5 @@ func runC11(r *Report, rng *rand.Rand, thorough bool) {
 	ocases.WriteTo(r)
 	lcases.WriteTo(r)
 	runC11Cross(r, rng, thorough)
-	r.Rule = "cross-enum: 2-4 top-level string enums and 0-2 other types over a small alphabet of type names and values (values meeting across enums, meeting prefixed names, type names and the own type name; three fixed shapes) x always-prefix, generated; which enums were prefixed vs the model of the conflict pass in Coq, all constant names distinct (oracle); function level: value lists over an adversarial alphabet (empty, whitespace, case / punctuation variants, leading digits, keywords, predeclared names, quotes, backslashes, tabs, newlines, non-ASCII, duplicates) through SanitizeEnumNames vs the model; end to end: string and integer enums in six positions (component, property, parameter, array item, request body, response) x {default, always-prefix-enum-values, old-enum-conflicts}, generated, parsed; every constant of the enum's type read back (strconv.Unquote of the emitted literal) and compared with the specification's values (exactly one constant per distinct value), names pairwise distinct in the file; non-trivial = at least two distinct values"
+	r.Rule = "cross-enum: 2-4 top-level string enums and 0-2 other types over a small alphabet of type names and values (values meeting across enums, meeting prefixed names, type names and the own type name; three fixed shapes) x always-prefix, generated; which enums were prefixed vs the model of the conflict pass in Coq, all constant names distinct (oracle); function level: value lists over an adversarial alphabet (empty, whitespace, case / punctuation variants, leading digits, keywords, predeclared names, quotes, backslashes, tabs, newlines, non-ASCII, duplicates) through SanitizeEnumNames vs the model; end to end: string, integer (incl. values beyond 2^24) and number (fractions with 9 significant digits, 1e21) enums in six positions (component, property, parameter, array item, request body, response) x {default, always-prefix-enum-values, old-enum-conflicts}, generated, parsed; every constant of the enum's type read back (strconv.Unquote of the emitted literal) and compared with the specification's values (exactly one constant per distinct value), names pairwise distinct in the file; non-trivial = at least two distinct values"
 }
